@@ -135,6 +135,20 @@ pub fn ref_proj(lon: f64, lat: f64) -> (f64, f64) {
   }
 }
 
+/// sphere position of a point of the projection plane (x any real, |y| <= 2); lon in [0, 2pi)
+pub fn ref_unproj_plane(x: f64, y: f64) -> (f64, f64) {
+  let x = x.rem_euclid(8.0);
+  if y.abs() <= 1.0 {
+    (x * (PI / 4.0), (2.0 * y / 3.0).asin())
+  } else {
+    let sigma = 2.0 - y.abs();
+    let xc = 2.0 * (x / 2.0).floor() + 1.0;
+    let t = if sigma <= 0.0 { xc } else { xc + ((x - xc) / sigma).max(-1.0).min(1.0) };
+    let lat = HALF_PI - 2.0 * (sigma.max(0.0) / SQRT6).asin();
+    (t.rem_euclid(8.0) * (PI / 4.0), if y > 0.0 { lat } else { -lat })
+  }
+}
+
 /// real local coordinates of plane point (x, y) in base cell b
 pub fn local_of_plane(n: f64, b: u8, x: f64, y: f64) -> (f64, f64) {
   let mut u = x - cx(b) as f64;
